@@ -923,6 +923,8 @@ class Interp(object):
             new = self.generic[-1].carried(self, t.id, s, rhs, fr)
         elif hasattr(cur, 'sym_augassign'):
             new = cur.sym_augassign(self, s.op.__class__.__name__, rhs, s)
+            if new is NotImplemented:
+                new = self.binop(s.op, cur, rhs, s, fr)
         elif hasattr(cur, 'oid') and hasattr(cur, 'term'):
             # numpy in-place update of an array object: same object identity, new value
             new = self.binop(s.op, cur, rhs, s, fr)
